@@ -197,12 +197,15 @@ def handle (payload : String) : String :=
 /-! ### cursor traversals
 
   ctrav (req (bo le|be) (base ADDR) (img xHEX) (ns all | N)
-             (cmsg (hdr SIZE BLOFF BLSIZE) CLEVEL) (needs E...))
+             (cmsg (hdr SIZE BLOFF BLSIZE) CLEVEL) (runs (K V E)...))
     CLEVEL = (cl (fields (f REL ABS SIZE ISVIEW LAST)...) (groups (g (dim ...) CLEVEL)...) (datas LENSIZE...))
-  One run per (target member k, wrapper) in the order k = 0,1,.. × plain, init, dont_move,
-  init_dont_move, skip: `auto c = sbepp::init_cursor(m)`, every member before k through the plain
-  cursor (entries through `cursor_range`), member k through the wrapper.  `needs`: one NEEDS_END per
-  run, in that order.  Answer: as for `guard`. -/
+  One run per `(K V E)`: `auto c = sbepp::init_cursor(m)`, every member before member number K (in
+  traversal order; entries through `cursor_range`) through the plain cursor, member K through variant V:
+    0..4  the getter `v.NAME(w)` with w = c, init(c), dont_move(c), init_dont_move(c), skip(c)
+    5..8  the SETTER `v.NAME(value, w)` with w = c, init(c), dont_move(c), init_dont_move(c)
+          (scalar fields only; `skip` has no setters)
+  E = NEEDS_END of the run.  The older form `(needs E...)` stands for the runs
+  k = 0,1,.. × V = 0..4 in that order.  Answer: as for `guard`. -/
 
 partial def parseCLevel : SExp → Option CLevel
   | .list [.atom "cl", .list (.atom "fields" :: fs), .list (.atom "groups" :: gs), .list (.atom "datas" :: ds)] => do
@@ -223,11 +226,29 @@ where
 
 def cvars : List CVar := [.plain, .init, .dontMove, .initDontMove, .skip]
 
-def cblock (c : Ctx) (m : CMsg) (needs : List Nat) : String :=
-  let runs := (List.range (needs.length / 5)).flatMap (fun k => cvars.map (fun v => (travMsg c m { k := k, var := v }).evs))
+def targetOf (k v : Nat) : Target :=
+  { k := k, var := cvars.getD (if v < 5 then v else v - 5) .plain, set := decide (5 ≤ v) }
+
+def parseRun : SExp → Option (Nat × Nat × Nat)
+  | .list [k, v, e] => do
+    let v ← nat? v
+    if v < 9 then pure (← nat? k, v, ← nat? e) else none
+  | _ => none
+
+/-- `(runs ...)`, or the older `(needs ...)` -/
+def parseRuns (req : SExp) : Option (List (Nat × Nat × Nat)) :=
+  match req.field? "runs", req.field? "needs" with
+  | some rs, _ => rs.mapM parseRun
+  | none, some ns => do
+    let es ← ns.mapM nat?
+    pure ((List.range es.length).zip es |>.map (fun (i, e) => (i / 5, i % 5, e)))
+  | none, none => none
+
+def cblock (c : Ctx) (m : CMsg) (rs : List (Nat × Nat × Nat)) : String :=
+  let runs := rs.map (fun (k, v, _) => (travMsg c m (targetOf k v)).evs)
   let runS := String.ofList (runs.map (fun e => runChar c e))
   let guardS := String.ofList (runs.map (fun e => if guard e then 'g' else '-'))
-  let specS := String.ofList (needs.map (fun ne => if ne ≤ c.n then 'i' else 'o'))
+  let specS := String.ofList (rs.map (fun (_, _, ne) => if ne ≤ c.n then 'i' else 'o'))
   runS ++ "/" ++ guardS ++ "/" ++ specS
 
 def handleCursor (payload : String) : String :=
@@ -235,26 +256,25 @@ def handleCursor (payload : String) : String :=
   | none => "bad-op"
   | some req =>
     match req.atomField? "bo", req.natField? "base", (req.atomField? "img").bind (fun s => SExp.unhex (s.drop 1).toString),
-          req.field? "cmsg", req.field? "needs", req.atomField? "ns" with
-    | some bo, some base, some img, some [.list [.atom "hdr", hs, bo1, bs1], lv], some ns_, some ns =>
-      match nat? hs, nat? bo1, nat? bs1, parseCLevel lv, ns_.mapM nat? with
-      | some hs, some blOff, some blSize, some level, some needs =>
+          req.field? "cmsg", parseRuns req, req.atomField? "ns" with
+    | some bo, some base, some img, some [.list [.atom "hdr", hs, bo1, bs1], lv], some rs, some ns =>
+      match nat? hs, nat? bo1, nat? bs1, parseCLevel lv with
+      | some hs, some blOff, some blSize, some level =>
         let m : CMsg := { hdrSize := hs, blOff := blOff, blSize := blSize, level := level }
         let bo := if bo = "be" then ByteOrder.big else ByteOrder.little
         let mk (n : Nat) : Ctx := { base := base, n := n, bo := bo, buf := img }
         match ns with
-        | "all" => ",".intercalate ((List.range (img.length + 1)).map (fun n => cblock (mk n) m needs))
+        | "all" => ",".intercalate ((List.range (img.length + 1)).map (fun n => cblock (mk n) m rs))
         | ns =>
           match ns.toNat? with
           | none => "bad-op bad-n"
           | some n =>
             let c := mk n
             if (req.field? "detail").isSome then
-              let ts := (List.range (needs.length / 5)).flatMap (fun k => cvars.map (fun v =>
-                touchesStr (travMsg c m { k := k, var := v }).evs))
-              s!"{cblock c m needs} touches={"|".intercalate ts}"
-            else cblock c m needs
-      | _, _, _, _, _ => "bad-op bad-request"
+              let ts := rs.map (fun (k, v, _) => touchesStr (travMsg c m (targetOf k v)).evs)
+              s!"{cblock c m rs} touches={"|".intercalate ts}"
+            else cblock c m rs
+      | _, _, _, _ => "bad-op bad-request"
     | _, _, _, _, _, _ => "bad-op bad-request"
 
 end Sbepp.Drive.C10
